@@ -3,7 +3,7 @@
  * Codec model: compressing n bytes yields a blob of a nondeterministic true size c within the documented bound;
  * the call succeeds iff the destination capacity is >= c; decompressing exactly that blob (same pointer, same length)
  * into a buffer of >= n bytes yields n bytes, anything else is an error. */
-#include "/repo/mtbl/compression.c"
+#include "mtbl/compression.c"
 #include "spec/ghost.h"
 
 /* ---------- allocation accounting (content is irrelevant in this model) ---------- */
